@@ -563,7 +563,17 @@ def rule_concat(E, R):
     UR = ["Result::Ok", "Result::Err"]
     somes = [x for x in S.result_leaves() if x.node.get("k") == "Call" and norm(x.node.get("callee", "")) == "core::option::Option::Some"]
     present = [x for x in somes if sem.admitted_tuples(x.pc, [pRes], [UR]) == {("Result::Ok",)}]
-    R.check(len(present) >= 2 and len(present) == len(somes), rule, fn, "returns Some(..) as soon as a present argument is found", where=h["span"])
+    # both joiners are reached for a present argument of their kind, inside a returned Some(..) (one Some per kind, or
+    # one Some around a match on the kind)
+    joins = {}
+    for x in S.sites():
+        if x.node.get("k") == "Call" and norm(x.node.get("callee", "")) in ("functions::concat::concat_array", "functions::concat::concat_bytes"):
+            kinds = sem.nested_variants(x.pc, lambda v: True, "LhsValue")
+            inside = any(any(y is x.node for y in walk(sm.node)) for sm in present)
+            joins[last_seg(norm(x.node["callee"]))] = (sem.admitted_tuples(x.pc, [pRes], [UR]) == {("Result::Ok",)}, sorted(kinds or []), inside)
+    want = {"concat_array": (True, ["Array"], True), "concat_bytes": (True, ["Bytes"], True)}
+    R.check(len(present) >= 1 and len(present) == len(somes) and joins == want, rule, fn,
+            "returns Some(..) as soon as a present argument is found", "Some leaves %d (for a present argument: %d); joiners %s" % (len(somes), len(present), joins), h["span"])
     nones = [x for x in S.result_leaves() if def_path(x.node) == "core::option::Option::None"]
     tries = [x for x in S.sites() if sem.is_try(x.node) and sem.is_method(sem.try_inner(x.node), "next") is not None and
              norm(x.node.get("ty", "")).startswith("core::result::Result<types::LhsValue")]
